@@ -186,6 +186,7 @@ def gen(outp):
 
 
 def one(m, slot, jobs, pass2):
+    slot = os.environ.get("AM_PREFIX", "") + str(slot)
     root = f"/dev/shm/verif-am-{slot}"
     shutil.rmtree(root, ignore_errors=True)
     os.makedirs(root)
